@@ -266,6 +266,59 @@ impl Posix {
             self.std_info()
         }
     }
+
+    /// Known finding D10: jiff evaluates a POSIX rule per UTC calendar year
+    /// and clamps each rule transition into the rule's own year. When a rule
+    /// transition of rule-year `yy` falls, in UTC, into year yy-1 or yy+1,
+    /// jiff's answer is wrong between the transition instant and that year
+    /// boundary. Returns true when `t` lies in such a window (with a one
+    /// second guard at the boundary).
+    pub fn in_crossing_window(&self, t: i64) -> bool {
+        if self.dst.is_none() {
+            return false;
+        }
+        let (y, _, _) = cal::civil_from_days(t.div_euclid(86400));
+        for yy in (y - 1)..=(y + 1) {
+            let (s, e) = self.events(yy).unwrap();
+            for ev in [s, e] {
+                let (uy, _, _) = cal::civil_from_days(ev.div_euclid(86400));
+                if uy < yy {
+                    let boundary = cal::days_from_civil(yy, 1, 1) * 86400;
+                    if t >= ev - 1 && t <= boundary {
+                        return true;
+                    }
+                } else if uy > yy {
+                    let boundary = cal::days_from_civil(yy + 1, 1, 1) * 86400;
+                    if t >= boundary - 1 && t <= ev {
+                        return true;
+                    }
+                }
+            }
+        }
+        false
+    }
+
+    /// Does any rule transition fall into a different calendar year than its
+    /// rule date, either in UTC or on the wall clock (before or after the
+    /// change)? Such zones are subject to known finding D10.
+    pub fn has_year_crossing(&self) -> bool {
+        let Some(d) = &self.dst else { return false };
+        let mut ys: Vec<i64> = (2000..2028).collect();
+        ys.extend([1900, -9999, 9999, 0, 1]);
+        let yr = |secs: i64| cal::civil_from_days(secs.div_euclid(86400)).0;
+        for yy in ys {
+            let (s, e) = self.events(yy).unwrap();
+            let ws = d.start.day(yy) * 86400 + d.start_time; // wall clock (std) of the start
+            let we = d.end.day(yy) * 86400 + d.end_time; // wall clock (dst) of the end
+            let diff = (d.utoff - self.std_utoff) as i64;
+            for v in [s, e, ws, ws + diff, we, we - diff, s - 1, e - 1, ws - 1, we - 1] {
+                if yr(v) != yy {
+                    return true;
+                }
+            }
+        }
+        false
+    }
 }
 
 // ---------------------------------------------------------------------------
@@ -469,6 +522,31 @@ impl Zone {
         v.sort();
         v.dedup();
         v
+    }
+
+    pub fn posix_rule(&self) -> Option<&Posix> {
+        match self {
+            Zone::Tzif(z) => z.footer.as_ref(),
+            Zone::Posix(p) => Some(p),
+            Zone::Fixed(_) => None,
+        }
+    }
+    /// instant from which the POSIX rule applies
+    pub fn rule_from(&self) -> i64 {
+        match self {
+            Zone::Tzif(z) => z.trans.last().map(|x| x.0).unwrap_or(i64::MIN),
+            _ => i64::MIN,
+        }
+    }
+    /// Known finding D10 applies to lookups at this instant.
+    pub fn d10_window(&self, t: i64) -> bool {
+        match self.posix_rule() {
+            Some(p) => t >= self.rule_from().saturating_sub(1) && p.in_crossing_window(t),
+            None => false,
+        }
+    }
+    pub fn d10_zone(&self) -> bool {
+        self.posix_rule().map(|p| p.has_year_crossing()).unwrap_or(false)
     }
 
     /// First year for which rule transitions apply (None: no rule).
